@@ -29,7 +29,7 @@ CHECKS = {
    "~230 (thorough ~480) configurations with length*target around 3^k (k=2..40), 1 and 2^64 x ~17 hash classes at every threshold of the three-stage lane test x 3 unqualified backgrounds x <=2 deviating lanes x all class pairs, judged by the property itself (returned lane qualifies; a lane with difficulty > length*target is never passed over); toInt on all single-trit and chunk-boundary patterns; Score on real and scripted digests (uint64 path, big-int path, saturation); real single-worker Mine: every nonce of every earlier block checked with a reference difficulty",
    "bounded configuration set; worker counts >1 soundness only"),
  "C13": ("model_checking", "E3", "stateless model checking of the real Mine under a controlled scheduler (build overlay routes sync, atomic, channel, select and go through shims): depth-first exploration of all interleavings, unbounded with state-key pruning for N<=2 (thorough N<=3), iterated preemption bound for larger N; separate free-running -race pass",
-   "73 (thorough ~100) closed scenarios = PoW version x N workers x which worker finds in which batch x cancellation never/before/concurrent; every schedule: Mine returns, nonce valid or ErrCancelled only if cancelled, no goroutine panic, no goroutine left behind, no worker ignores the done flag for 4+ batches; every 64th and every violating schedule replayed twice for determinism; data races by a free-running -race pass (sampling, reported separately)",
+   "141 (thorough ~170) closed scenarios = PoW version x N workers x which worker finds in which batch x cancellation never/before/concurrent; every schedule: Mine returns, nonce valid or ErrCancelled only if cancelled, no goroutine panic, no goroutine left behind, no worker ignores the done flag for 4+ batches; every 64th and every violating schedule replayed twice for determinism; data races by a free-running -race pass (sampling, reported separately)",
    "SC semantics for atomics; a worker that polled 3 times fruitlessly is treated as waiting; unbuffered-channel rendezvous and value-carrying select cases are not modelled (reported as unsupported, never as violation)"),
  "C18": ("exploration", "E1", E1,
    "12 (thorough 42) seeds x alphas {empty, every single byte value, ramps up to 40/130 bytes}: proofs byte-equal to an RFC 9381 reference over math/big (try-and-increment counters 0..7 all occur), Verify/ProofToHash/Proof.Hash agree; all 640 single-bit flips, s+j*L, Gamma+T for all 8 torsion points, every small-order/non-canonical encoding as Gamma and as key, torsion-shifted keys, forged proofs that only key validation rejects, lengths 0..82: verdict, beta and decode-iff-canonical equal to the reference",
@@ -69,9 +69,33 @@ CHECKS = {
    "bounded n; trusts Go's hash implementations"),
 }
 ORDER = sorted(CHECKS)
+# passes every check shares (DESIGN.md 8.5)
+SHARED = ("; shared passes: all call histories of length <=3 over the property's operation alphabet executed the way a caller that recycles memory would "
+          "(arguments in re-used arena buffers, results overwritten, kept results re-read, arguments compared afterwards) against the reference, plus a salted pass with fresh identities; "
+          "every ordered pair of operations run concurrently under the race detector (exhaustive over pairs, sampling over schedules)")
+ARCH386_QUICK = {"C04", "C05", "C10", "C14", "C15", "C16", "C19"}
+ARCH386_THOROUGH = {"C01", "C02", "C03", "C07", "C08", "C09", "C17", "C18"}
+EXTRA = {
+ "C02": "; extended keys restored by the caller from stored k||c material in three memory layouts, every alphabet index, stored bytes compared afterwards",
+ "C04": "; every code point of the BMP (quick: every third above U+0800) and every other single byte inside the prefix with the checksum that is right for the raw bytes",
+ "C05": "; every code point of the BMP (quick: every third above U+0800) as prefix character",
+ "C08": "; the same pairs and derivations on keys assembled from the exported fields with every exported curve object denoting the curve",
+ "C11": "; nine kinds of ending context x unattainable/easy target x 1 and 4 workers; nonce-encoding sweep following every worker for 1031 (thorough 262201) batches; Worker reuse sequences; worker counts none..1000",
+ "C12": "; nine kinds of ending context x unattainable/easy target x 1 and 4 workers; nonce-encoding sweep; Worker reuse sequences; worker counts none..1000",
+ "C13": "; low-target scenarios (every nonce qualifies) and contexts with a far deadline cancelled by their CancelFunc, under the scheduler and in the free-running pass; two calls on one Worker",
+ "C14": "; roomy and exactly sized buffers (slack 0..64, source with and without bytes behind its length); the earliest fault decides the error class and the count",
+ "C16": "; the real polymod against the BIP-173 transcription on every single-symbol sequence of length <=100; all 2^25 (thorough 2^30) checksum tails through the real Decode for extra accepted constants",
+ "C17": "; scalar 1 / n+1 and additions with the identity in the history pass (results overwritten by the caller, arguments and generator compared afterwards)",
+ "C20": "; public hash entered from fresh goroutines at every recursion depth 0..3000 (thorough 9000) x 4 word offsets",
+}
 checks = []
 for pid in ORDER:
     cat, eng, tech, text, note = CHECKS[pid]
+    text += EXTRA.get(pid, "") + SHARED
+    if pid in ARCH386_QUICK:
+        text += "; the whole quick tier once more in a GOARCH=386 build (32-bit int/uint)"
+    elif pid in ARCH386_THOROUGH:
+        text += "; thorough tier: the quick tier once more in a GOARCH=386 build"
     checks.append({
         "property_id": pid,
         "quick_cmd": f"./run.sh {pid} quick",
